@@ -988,6 +988,72 @@ def structural_recursion(facts, fn, names):
     return True
 
 
+def descent_cycle(facts, owners):
+    """A recursion cycle over the expression tree is well founded when every call inside it hands on either a strict
+    sub-term of the caller's own input (a variable bound by destructuring, or a literal slice of such variables) or the
+    caller's input unchanged (a parameter, or an element of a parameter), and the functions that only hand their input on
+    do not call each other.  Returns (ok, reason)."""
+    fns = [facts.fns[o] for o in owners if o in facts.fns]
+    if len(fns) != len(owners):
+        return False, "not every member is a source function"
+    names = {f.name for f in fns}
+    strict_all = {}
+    for f in fns:
+        bound, same = set(), set(n_ for n_, _ in f.params if n_)
+        for mt in find_all(f.body, lambda n: n.get("k") == "match"):
+            for arm in mt["arms"]:
+                for pc in rx.pat_cases(arm["pat"]):
+                    if pc["k"] in ("tstruct", "struct", "tuple"):
+                        bound |= set(rx.pat_bindings(pc))
+        for st in find_all(f.body, lambda n: n.get("k") in ("let", "letexpr")):
+            if st["pat"]["k"] in ("tstruct", "struct", "or"):
+                bound |= set(rx.pat_bindings(st["pat"]))
+        for lp in find_all(f.body, lambda n: n.get("k") == "for"):
+            base, chain = rx.method_chain(rx.peel(lp["iter"]))
+            if rx.var_name(base) in same and all(mm in ("iter", "into_iter", "as_ref", "as_slice") for mm, _, _ in chain):
+                same |= set(rx.pat_bindings(lp["pat"]))
+            elif rx.var_name(base) in bound:
+                bound |= set(rx.pat_bindings(lp["pat"]))
+        calls = find_all(f.body, lambda n: (n.get("k") == "mcall" and n["m"] in names) or (n.get("k") == "call" and n["f"]["k"] == "path" and n["f"]["segs"][-1] in names))
+        if not calls:
+            return False, "%s makes no call into the cycle that could be classified" % f.key
+        kinds = []
+        for cl in calls:
+            cands = [cl["recv"]] if cl["k"] == "mcall" else list(cl["args"])
+            kind = None
+            for a in cands:
+                a0 = rx.peel(a)
+                base, chain = rx.method_chain(a0)
+                transparent = all(mm in ("as_ref", "clone", "deref", "borrow", "as_deref", "as_slice") for mm, _, _ in chain)
+                if a0.get("k") in ("array", "tuple") or (a0.get("k") == "macro" and a0.get("name") == "vec"):
+                    elems = a0.get("elems") or a0.get("args") or []
+                    if elems and all(rx.var_name(rx.peel(x)) in bound for x in elems):
+                        kind = "strict"
+                        break
+                    continue
+                vn = rx.var_name(base)
+                if transparent and vn in bound:
+                    kind = "strict"
+                    break
+                if transparent and vn in same and kind is None:
+                    kind = "same"
+            if kind is None:
+                return False, "in %s the call `%s` hands on something that is neither a sub-term nor the input" % (f.key, src(cl)[:60])
+            kinds.append(kind)
+        strict_all[f.key] = all(k_ == "strict" for k_ in kinds)
+    passers = [k_ for k_, v_ in strict_all.items() if not v_]
+    # functions that pass their input on must not reach each other without going through a strictly descending one
+    pn = {facts.fns[k_].name for k_ in passers}
+    for k_ in passers:
+        f = facts.fns[k_]
+        inner = find_all(f.body, lambda n: (n.get("k") == "mcall" and n["m"] in pn and n["m"] not in {facts.fns[x].name for x in strict_all if strict_all[x]}) or (n.get("k") == "call" and n["f"]["k"] == "path" and n["f"]["segs"][-1] in pn))
+        if inner and any((cl["k"] == "call") for cl in inner):
+            return False, "%s passes its input on to %s which passes it on again" % (k_, sorted(pn))
+    if not any(strict_all.values()):
+        return False, "no member of the cycle descends strictly"
+    return True, "members %s descend to strict sub-terms; %s hand the same term on to a descending member" % (sorted(k_.split("::")[-1] if not k_.startswith("<") else k_ for k_, v_ in strict_all.items() if v_), sorted(x.split("::")[-1] for x in passers) or "none")
+
+
 def termination(c, facts, m):
     """Recursion cycles of the resolved call graph (Tarjan SCC over local bodies)."""
     graph = {}
@@ -1053,6 +1119,8 @@ def termination(c, facts, m):
             why = "structural recursion over the finite tree (C19 induction)"
         elif all(o in facts.fns and structural_recursion(facts, facts.fns[o], {facts.fns[x].name for x in owners if x in facts.fns}) for o in owners):
             why = "structural recursion: every recursive call is made on a value bound by destructuring the function's own argument (a strict sub-term of a finite tree)"
+        elif descent_cycle(facts, owners)[0]:
+            why = "recursion over the finite tree: " + descent_cycle(facts, owners)[1]
         elif all(re.search(r" as (std::)?(fmt::)?(Debug|Clone|PartialEq|cmp::PartialEq|clone::Clone|fmt::Debug)>", o) or "std::fmt::Debug" in o or "std::clone::Clone" in o or "std::cmp::PartialEq" in o for o in owners):
             why = "derived/structural Debug/Clone/PartialEq over the finite tree"
         c.ob("C03.termination", "call graph", "cycle {%s}" % label, why is not None, why or "unrecognised recursion cycle: %s" % owners)
